@@ -154,11 +154,20 @@ def run(ctx):
         for k, v in g.shape.items():
             shape[k] = shape.get(k, 0) + v
         cases.append(("rnd-" + vlib.sha(src), src, G.model_line(decls), "random"))
+    # the scope-tracking family: nested scopes declaring a var named like the fmt import (tracked shadowing)
+    nshadow = ctx.n(8, 200)
+    for i in range(nshadow):
+        g = G.Gen(ctx.rng, shadow_bias=3)
+        decls = g.program()
+        src = G.render(decls)
+        for k, v in g.shape.items():
+            shape[k] = shape.get(k, 0) + v
+        cases.append(("shd-" + vlib.sha(src), src, G.model_line(decls), "random"))
     # extra shape-only random programs (cheap: no build)
     nshape = ctx.n(300, 5000)
     shape_only = []
     for i in range(nshape):
-        g = G.Gen(ctx.rng)
+        g = G.Gen(ctx.rng, shadow_bias=(3 if i % 3 == 0 else 0))
         decls = g.program()
         shape_only.append(("shp-%d" % i, G.render(decls), G.model_line(decls), "shape-only"))
         for k, v in g.shape.items():
